@@ -273,6 +273,13 @@ async fn run(mut s: Sim, mut rng: Rng, len: usize) -> Sim {
                     s.op(Op::Airdrop(K::RdJournal, rng.range(1, 1000))).await; let _ = d; continue; }
             _ => { if ne == 0 { continue } let i = pick_ep(&mut rng, ne); let _ = profile; s.rd_finalize_rewards(&g.payer, g.eps[i].e) }
         };
+        if rng.chance(1, 8) && !g.paused { // the same instruction while paused (refused, no effect), then the flag is cleared again
+            let p = s.rd_configure(&g.admin, RdSetting::Paused(true));
+            if s.op(tx(vec![p])).await {
+                s.op(tx(vec![honest.clone()])).await;
+                let u = s.rd_configure(&g.admin, RdSetting::Paused(false)); s.op(tx(vec![u])).await;
+            }
+        }
         let ix = if rng.chance(1, 4) { fault(&mut rng, honest, &g.universe).0 } else { honest };
         s.op(tx(vec![ix])).await;
     }
@@ -304,7 +311,8 @@ async fn go(s: &mut Sim, rng: &mut Rng, g: &mut G, ix: crate::sim::Ix) -> bool {
         if let Some(cp) = ix.metas.iter().position(|m| m.0 == K::RdConfig) {
             let fake = K::User(700 + rng.below(3));
             let owner = rng.pick(&[K::Rogue(2), K::System, K::Passport, K::Token]).clone();
-            s.forge_rd_config(&attacker, &fake, &owner).await;
+            // one time in three the look-alike is owned by the program itself but carries another type's tag (type confusion)
+            if rng.chance(1, 3) { s.forge_rd_config_mistagged(&attacker, &fake).await } else { s.forge_rd_config(&attacker, &fake, &owner).await; }
             let mut f = ix.clone().with_key(cp, &fake);
             if let Some(pos) = f.metas.iter().position(|m| m.1) { f = f.with_key(pos, &attacker); }
             s.op(tx(vec![f])).await;
